@@ -70,6 +70,34 @@ def ifexp_statements(fn: ast.FunctionDef) -> list[str]:
     return out
 
 
+def comprehension_statements(fn: ast.FunctionDef) -> list[str]:
+    """Simple statements that build or fill a collection from a comprehension (the reviewed ones are left as written)."""
+    out = []
+    for n in ast.walk(fn):
+        if isinstance(n, (ast.Assign, ast.AnnAssign, ast.Expr)) and any(isinstance(c, (ast.ListComp, ast.GeneratorExp)) for c in ast.walk(n)):
+            out.append(_u(n))
+    return out
+
+
+def element_wise_receivers(fn: ast.FunctionDef) -> list[str]:
+    """Collections the function fills one element at a time: receivers of `.append(..)` and targets of `x[k] = v`."""
+    out = set()
+    for n in ast.walk(fn):
+        if isinstance(n, ast.Call) and isinstance(n.func, ast.Attribute) and n.func.attr == 'append':
+            out.add(_u(n.func.value))
+        elif isinstance(n, ast.Subscript) and isinstance(n.ctx, ast.Store):
+            out.add(_u(n.value))
+    return sorted(out)
+
+
+def plain_assignments(fn: ast.FunctionDef) -> list[str]:
+    return sorted({_u(n) for n in ast.walk(fn) if isinstance(n, (ast.Assign, ast.AnnAssign)) and getattr(n, 'value', None) is not None and len(_u(n)) < 500})
+
+
+def loop_headers(fn: ast.FunctionDef) -> list[str]:
+    return [f'for {_u(n.target)} in {_u(n.iter)}' for n in ast.walk(fn) if isinstance(n, ast.For)]
+
+
 def ordered_bindings(fn: ast.FunctionDef) -> list[str]:
     """Parameters, then local names in the order of their first binding (a renaming keeps this order)."""
     out = [a.arg for a in fn.args.posonlyargs + fn.args.args + fn.args.kwonlyargs]
@@ -113,12 +141,15 @@ def class_private_attrs(ci) -> dict[str, list[str]]:
 
 
 def build_reference(repo) -> dict:
-    ref = {'functions': {}, 'classes': {}}
+    ref = {'functions': {}, 'classes': {}, 'modules': {}}
     for q, fi in repo.functions.items():
         par = [_u(n) for n in ast.walk(fi.node) if isinstance(n, ast.Assign) and len(n.targets) == 1 and isinstance(n.targets[0], ast.Tuple)
                and isinstance(n.value, ast.Tuple)]
         ref['functions'][q] = {'locals': sorted(local_names(fi.node)), 'ifexp': sorted(ifexp_statements(fi.node)),
-                               'bindings': ordered_bindings(fi.node), 'shape': shape(fi.node), 'parallel': sorted(par)}
+                               'bindings': ordered_bindings(fi.node), 'shape': shape(fi.node), 'parallel': sorted(par),
+                               'comp': sorted(comprehension_statements(fi.node)), 'loops': sorted(loop_headers(fi.node)),
+                               'assigns': plain_assignments(fi.node), 'elementwise': element_wise_receivers(fi.node)}
+    ref['modules'] = {m.name: sorted(m.assigns) for m in repo.modules.values()}
     for q, ci in repo.classes.items():
         ref['classes'][q] = {'attrs': class_private_attrs(ci), 'methods': sorted(ci.methods)}
     return ref
@@ -385,6 +416,7 @@ def _inline_helpers(repo, ref_funcs: set[str], log: dict) -> None:
                     st = body[i]
                     repl = _try_inline_stmt(repo, fi, st, new_helpers, caller_locals)
                     if repl is not None:
+                        _carry_imports(fi, repl, new_helpers, caller_locals)
                         body[i:i + 1] = repl
                         log.setdefault(q, []).append(f'inlined helper call at line {getattr(st, "lineno", "?")}: {_u(st)[:70]}')
                         changed = True
@@ -411,6 +443,31 @@ def _inline_helpers(repo, ref_funcs: set[str], log: dict) -> None:
             elif hasattr(h.module, 'functions') and isinstance(h.module.functions, dict):
                 h.module.functions.pop(h.name, None)
             log.setdefault(q, []).append('helper fully inlined: removed from the function index')
+
+
+def _carry_imports(fi, stmts, helpers, caller_locals):
+    """Code inlined from a helper of another module may use names only that module binds: make the caller's module know them
+    the way the helper's module does (the index only; nothing is written anywhere)."""
+    import builtins
+    m = fi.module
+    for st in stmts:
+        for n in ast.walk(st):
+            if not (isinstance(n, ast.Name) and isinstance(n.ctx, ast.Load)):
+                continue
+            name = n.id
+            if name in caller_locals or name in m.imports or name in m.assigns or name in m.classes or name in m.functions or hasattr(builtins, name):
+                continue
+            found = set()
+            for h in helpers.values():
+                hm = h.module
+                if hm is m:
+                    continue
+                if name in hm.imports:
+                    found.add(hm.imports[name])
+                elif name in hm.classes or name in hm.functions or name in hm.assigns:
+                    found.add(('symbol', hm.name, name))
+            if len(found) == 1:
+                m.imports[name] = next(iter(found))
 
 
 def log_touch(log):
@@ -492,9 +549,111 @@ def _instantiate(h, call, skip_first, caller_locals, recv_name, target: str | No
     return kind, prelude + wrapper.body
 
 
+def _first_evaluated_call(e: ast.expr):
+    """The call that is evaluated first and unconditionally when `e` is evaluated, if `e` has one of a few plain shapes."""
+    if isinstance(e, ast.Call):
+        # `f(..).g(..)`: the receiver's call comes first
+        if isinstance(e.func, ast.Attribute) and not isinstance(e.func.value, (ast.Name, ast.Constant)):
+            inner = _first_evaluated_call(e.func.value)
+            if inner is not None:
+                return inner
+            return None if not _is_pure(e.func.value) else e
+        return e
+    if isinstance(e, ast.UnaryOp) and isinstance(e.op, ast.Not):
+        return _first_evaluated_call(e.operand)
+    if isinstance(e, ast.Compare) and isinstance(e.left, ast.Call) and all(_is_pure(c) for c in e.comparators):
+        return e.left
+    if isinstance(e, ast.Attribute) or isinstance(e, ast.Subscript) and _is_pure(e.slice):
+        return _first_evaluated_call(e.value)
+    return None
+
+
+def _hoist_header_call(repo, fi, st, helpers, caller_locals):
+    """`for x in helper(..):` / `if helper(..):` -> `tmp = helper(..)` first (the header expression is evaluated once, before
+    anything else of the statement), so that the statement-level inliner can take the call."""
+    if isinstance(st, ast.For):
+        sub = _first_evaluated_call(st.iter)
+    elif isinstance(st, ast.If):
+        sub = _first_evaluated_call(st.test)
+    else:
+        return None
+    if sub is None:
+        return None
+    h, skip = _resolve_helper(repo, fi, sub, helpers)
+    if h is None or h.node is fi.node:
+        return None
+    shape_ = _helper_shape(h.node)
+    if shape_ is None or (shape_[0] == 'tail' and len(shape_[1]) == 1):
+        return None          # a one-expression helper is substituted in place by the expression-level inliner
+    rets = [n for n in ast.walk(h.node) if isinstance(n, ast.Return) and n.value is not None]
+    base = rets[0].value.id if rets and all(isinstance(r.value, ast.Name) and r.value.id == rets[0].value.id for r in rets) else f'_{h.name.strip("_")}_result'
+    tmp = base if base not in caller_locals else f'{base}__{h.name.strip("_")}'
+    caller_locals.add(tmp)
+    asg = ast.Assign(targets=[ast.Name(id=tmp, ctx=ast.Store())], value=sub)
+    _set_lines(asg, st)
+    asg.value = sub
+    name = ast.copy_location(ast.Name(id=tmp, ctx=ast.Load()), sub)
+
+    class R3(ast.NodeTransformer):
+        def visit_Call(self, node):
+            return name if node is sub else self.generic_visit(node)
+    if isinstance(st, ast.For):
+        st.iter = R3().visit(st.iter)
+    else:
+        st.test = R3().visit(st.test)
+    return [asg, st]
+
+
+def _drop_self_attr_noops(fi, stmts):
+    """`self._x = self._x` (a plain private attribute, no setter anywhere in the class family) does nothing; an if/else branch
+    left empty by that gets `pass`, and an `else: pass` goes."""
+    if fi.cls is None:
+        return stmts
+    setters = {n for c in fi.cls.mro() + fi.cls.all_subclasses() for n in list(c.setters) + list(c.methods)}
+
+    def noop(s_):
+        return isinstance(s_, ast.Assign) and len(s_.targets) == 1 and isinstance(s_.targets[0], ast.Attribute) and isinstance(s_.targets[0].value, ast.Name) \
+            and s_.targets[0].value.id == 'self' and s_.targets[0].attr.startswith('_') and s_.targets[0].attr not in setters \
+            and isinstance(s_.value, ast.Attribute) and _u(s_.value) == _u(s_.targets[0])
+
+    def clean(lst):
+        out = []
+        for s_ in lst:
+            if noop(s_):
+                continue
+            if isinstance(s_, ast.If):
+                s_.body = clean(s_.body) or [ast.copy_location(ast.Pass(), s_)]
+                s_.orelse = clean(s_.orelse)
+                if s_.orelse and all(isinstance(x, ast.Pass) for x in s_.orelse):
+                    s_.orelse = []
+            out.append(s_)
+        return out
+    return clean(stmts)
+
+
+def _name_call_first(st, sub, h, caller_locals):
+    rets = [n for n in ast.walk(h.node) if isinstance(n, ast.Return) and n.value is not None]
+    base = rets[0].value.id if rets and all(isinstance(r.value, ast.Name) and r.value.id == rets[0].value.id for r in rets) else f'_{h.name.strip("_")}_result'
+    tmp = base if base not in caller_locals else f'{base}__{h.name.strip("_")}'
+    caller_locals.add(tmp)
+    asg = ast.Assign(targets=[ast.Name(id=tmp, ctx=ast.Store())], value=sub)
+    _set_lines(asg, st)
+    asg.value = sub
+
+    class R2(ast.NodeTransformer):
+        def visit_Call(self, node):
+            if node is sub:
+                return ast.copy_location(ast.Name(id=tmp, ctx=ast.Load()), node)
+            return self.generic_visit(node)
+    return asg, R2().visit(st)
+
+
 def _try_inline_stmt(repo, fi, st, helpers, caller_locals):
     call = None
     mode = None
+    hoisted = _hoist_header_call(repo, fi, st, helpers, caller_locals)
+    if hoisted is not None:
+        return hoisted
     if isinstance(st, ast.Expr) and isinstance(st.value, ast.Call):
         call, mode = st.value, 'expr'
     elif isinstance(st, (ast.Assign, ast.AnnAssign)) and isinstance(getattr(st, 'value', None), ast.Call):
@@ -536,6 +695,7 @@ def _try_inline_stmt(repo, fi, st, helpers, caller_locals):
                 if out is not None:
                     out = [s_ for s_ in out if not (isinstance(s_, ast.Assign) and len(s_.targets) == 1 and isinstance(s_.targets[0], ast.Name)
                                                     and isinstance(s_.value, ast.Name) and s_.value.id == s_.targets[0].id)]
+                    out = _drop_self_attr_noops(fi, out)
                     for s in out:
                         _set_lines(s, st)
                     return out or [ast.Pass(lineno=st.lineno, col_offset=0)]
@@ -568,7 +728,13 @@ def _try_inline_stmt(repo, fi, st, helpers, caller_locals):
             if shape_ is None or (shape_[0] == 'tail' and len(shape_[1]) == 1):
                 continue
             # everything else in the statement must be free of effects, so that evaluating the call first changes nothing
+            # (unless the call *is* what the statement evaluates first)
+            head_ = getattr(st, 'value', None)
             others_pure = True
+            if head_ is not None and _first_evaluated_call(head_) is sub and not isinstance(st, ast.AugAssign) \
+                    and all(isinstance(t, ast.Name) for t in (st.targets if isinstance(st, ast.Assign) else [])):
+                asg, new_st = _name_call_first(st, sub, h, caller_locals)
+                return [asg, new_st]
             for n in ast.walk(st):
                 if isinstance(n, ast.Call) and n is not sub and not any(n is y for y in ast.walk(sub)):
                     if not (_is_pure(ast.Expr(value=ast.Call(func=n.func, args=[], keywords=[]))) or (isinstance(n.func, ast.Attribute) and n.func.attr in _MUTATORS and any(sub is y for y in ast.walk(n)))):
@@ -634,7 +800,19 @@ def _inline_locals(fi, known: set[str]) -> list[str]:
                 if name in known or name in params or stored.get(name, 0) != 1:
                     continue
                 val = st.value
-                if not _is_pure(val) or isinstance(val, (ast.List, ast.Dict, ast.Set, ast.ListComp, ast.DictComp, ast.SetComp)) and False:
+                if not _is_pure(val):
+                    # an effectful value used exactly once, as the very first thing the next statement evaluates: same order
+                    loads = [n for n in ast.walk(fn) if isinstance(n, ast.Name) and n.id == name and isinstance(n.ctx, ast.Load)]
+                    nxt = body[idx + 1] if idx + 1 < len(body) else None
+                    head = None
+                    if isinstance(nxt, ast.If):
+                        head = nxt.test
+                    elif isinstance(nxt, (ast.Return, ast.Expr)) or (isinstance(nxt, ast.Assign) and all(isinstance(t, ast.Name) for t in nxt.targets)):
+                        head = nxt.value
+                    if len(loads) == 1 and head is not None and _first_evaluated_atom(head) is loads[0] \
+                            and not any(isinstance(n, (ast.Global, ast.Nonlocal)) for n in ast.walk(fn)):
+                        cand = (body, idx, name, val)
+                        break
                     continue
                 # a fresh mutable container is a variable, not a name for an expression
                 if isinstance(val, (ast.List, ast.Dict, ast.Set, ast.ListComp, ast.DictComp, ast.SetComp, ast.GeneratorExp)) or \
@@ -680,6 +858,34 @@ def _inline_locals(fi, known: set[str]) -> list[str]:
         _Subst({name: val}).visit(fn)
         done.append(f'{name} = {_u(val)[:60]}')
     return done
+
+
+def _first_evaluated_atom(e):
+    """The sub-expression whose evaluation comes first when `e` is evaluated (nothing with an effect precedes it)."""
+    while True:
+        if isinstance(e, ast.UnaryOp):
+            e = e.operand
+        elif isinstance(e, ast.Compare):
+            e = e.left
+        elif isinstance(e, ast.BoolOp):
+            e = e.values[0]
+        elif isinstance(e, ast.BinOp):
+            e = e.left
+        elif isinstance(e, (ast.Attribute, ast.Subscript, ast.Starred)):
+            e = e.value
+        elif isinstance(e, ast.IfExp):
+            e = e.test
+        elif isinstance(e, (ast.ListComp, ast.GeneratorExp, ast.SetComp)):
+            e = e.generators[0].iter
+        elif isinstance(e, ast.Call):
+            if isinstance(e.func, ast.Name):
+                if not e.args:
+                    return None
+                e = e.args[0]
+            else:
+                e = e.func
+        else:
+            return e
 
 
 def _defined_before(fn, name, st) -> bool:
@@ -735,11 +941,34 @@ def _immune(val, r) -> bool:
 class _Spelling(ast.NodeTransformer):
     """`s.startswith((a, b))` -> `s.startswith(a) or s.startswith(b)`;  `0 < x` style comparisons are left to the linear
     normal form. Applied only to spellings absent from the reference tree (it has no tuple-prefix tests)."""
-    def __init__(self):
+    def __init__(self, imports=None):
         self.done = []
+        self.imports = imports or {}
+
+    def _operator_getter(self, f):
+        if isinstance(f, ast.Name) and self.imports.get(f.id) in (('symbol', 'operator', 'attrgetter'), ('symbol', 'operator', 'itemgetter')):
+            return self.imports[f.id][2]
+        if isinstance(f, ast.Attribute) and isinstance(f.value, ast.Name) and self.imports.get(f.value.id) == ('module', 'operator') \
+                and f.attr in ('attrgetter', 'itemgetter'):
+            return f.attr
+        return None
 
     def visit_Call(self, node: ast.Call):
         self.generic_visit(node)
+        og = self._operator_getter(node.func)
+        if og and len(node.args) == 1 and not node.keywords and isinstance(node.args[0], ast.Constant):
+            k = node.args[0].value
+            x = ast.Name(id='x', ctx=ast.Load())
+            if og == 'attrgetter' and isinstance(k, str) and k.isidentifier():
+                bodyexpr = ast.Attribute(value=x, attr=k, ctx=ast.Load())
+            elif og == 'itemgetter':
+                bodyexpr = ast.Subscript(value=x, slice=node.args[0], ctx=ast.Load())
+            else:
+                return node
+            new = ast.Lambda(args=ast.arguments(posonlyargs=[], args=[ast.arg(arg='x')], kwonlyargs=[], kw_defaults=[], defaults=[]), body=bodyexpr)
+            _set_lines(new, node)
+            self.done.append(_u(node)[:60])
+            return new
         if isinstance(node.func, ast.Attribute) and node.func.attr in ('startswith', 'endswith') and len(node.args) == 1 and not node.keywords \
                 and isinstance(node.args[0], ast.Tuple) and node.args[0].elts and _is_pure(node.func.value):
             alts = []
@@ -796,11 +1025,809 @@ def _expand_quantifiers(fn: ast.FunctionDef) -> list[str]:
     return done
 
 
+# ------------------------------------------------------------------------------------------------ (i) comprehensions -> loops
+
+_SEQ_CTORS = {'list': lambda: ast.List(elts=[], ctx=ast.Load()),
+              'bytearray': lambda: ast.Call(func=ast.Name(id='bytearray', ctx=ast.Load()), args=[], keywords=[])}
+
+
+def _comp_loop(comp, make_stmt, like):
+    """Nested `for`/`if` statements equivalent to the comprehension's generators around make_stmt(element)."""
+    inner = [make_stmt(comp.elt)]
+    for g in reversed(comp.generators):
+        if g.is_async:
+            return None
+        for c in reversed(g.ifs):
+            inner = [ast.If(test=c, body=inner, orelse=[])]
+        inner = [ast.For(target=g.target, iter=g.iter, body=inner, orelse=[])]
+    for n in ast.walk(inner[0]):
+        if isinstance(n, ast.stmt):
+            ast.copy_location(n, like)
+    return inner[0]
+
+
+def _expand_comprehensions(fn: ast.FunctionDef, known: set[str], elementwise: set[str]) -> list[str]:
+    """Statements not in the reviewed tree:  `x = [E for ..]` / `x = list(E for ..)` / `x = bytearray(E for ..)` -> empty
+    collection plus a loop of appends;  `x.extend(E for ..)` -> loop of appends;  `d.update((K, V) for ..)` -> loop of item stores.
+    The comprehension's own variables must not clash with names the function uses elsewhere (they become function locals)."""
+    done = []
+    used = {}
+    for n in ast.walk(fn):
+        if isinstance(n, ast.Name):
+            used[n.id] = used.get(n.id, 0) + 1
+    for body in list(_bodies(fn)):
+        i = 0
+        while i < len(body):
+            st = body[i]
+            new = None
+            if _u(st) in known:
+                i += 1
+                continue
+            comp = None
+            if isinstance(st, (ast.Assign, ast.AnnAssign)) and st.value is not None:
+                tgt = st.targets[0] if isinstance(st, ast.Assign) and len(st.targets) == 1 else getattr(st, 'target', None)
+                v = st.value
+                ctor = None
+                if isinstance(v, ast.ListComp):
+                    comp, ctor = v, 'list'
+                elif isinstance(v, ast.Call) and isinstance(v.func, ast.Name) and v.func.id in _SEQ_CTORS and len(v.args) == 1 and not v.keywords \
+                        and isinstance(v.args[0], (ast.GeneratorExp, ast.ListComp)):
+                    comp, ctor = v.args[0], v.func.id
+                simple_attr = isinstance(tgt, ast.Attribute) and isinstance(tgt.value, ast.Name) and tgt.value.id == 'self'
+                if comp is not None and (isinstance(tgt, ast.Name) or simple_attr) and _u(tgt) in elementwise:
+                    ttext = _u(tgt)
+                    reads = {_u(n) for n in ast.walk(comp) if isinstance(n, (ast.Name, ast.Attribute))}
+                    # (an element that calls a method of self might look at the half-built attribute: plain names only then)
+                    if ttext not in reads and not (simple_attr and any(isinstance(n, ast.Call) and 'self' in _u(n.func).split('.')[:1] for n in ast.walk(comp))):
+                        def load_t(tgt=tgt):
+                            t2 = copy.deepcopy(tgt)
+                            t2.ctx = ast.Load()
+                            return t2
+                        st_t = copy.deepcopy(tgt)
+                        st_t.ctx = ast.Store()
+                        init = ast.Assign(targets=[st_t], value=_SEQ_CTORS[ctor]())
+                        _set_lines(init, st)
+                        mk = lambda e, lt=load_t: ast.Expr(value=ast.Call(func=ast.Attribute(value=lt(), attr='append', ctx=ast.Load()), args=[e], keywords=[]))
+                        loop = _comp_loop(comp, mk, st)
+                        if loop is not None:
+                            new = [init, loop]
+            elif isinstance(st, ast.Expr) and isinstance(st.value, ast.Call) and isinstance(st.value.func, ast.Attribute) and len(st.value.args) == 1 \
+                    and not st.value.keywords and isinstance(st.value.args[0], (ast.GeneratorExp, ast.ListComp)):
+                comp = st.value.args[0]
+                recv = st.value.func.value
+                if _u(recv) not in elementwise:
+                    pass
+                elif st.value.func.attr == 'extend' and _is_pure(recv):
+                    mk = lambda e, r=recv: ast.Expr(value=ast.Call(func=ast.Attribute(value=copy.deepcopy(r), attr='append', ctx=ast.Load()), args=[e], keywords=[]))
+                    loop = _comp_loop(comp, mk, st)
+                    new = [loop] if loop is not None else None
+                elif st.value.func.attr == 'update' and _is_pure(recv) and isinstance(comp.elt, ast.Tuple) and len(comp.elt.elts) == 2:
+                    mk = lambda e, r=recv: ast.Assign(targets=[ast.Subscript(value=copy.deepcopy(r), slice=e.elts[0], ctx=ast.Store())], value=e.elts[1])
+                    loop = _comp_loop(comp, mk, st)
+                    new = [loop] if loop is not None else None
+            if new is not None and comp is not None:
+                # comprehension variables become function locals: they must be used nowhere else in the function
+                cvars = {n.id for g in comp.generators for n in ast.walk(g.target) if isinstance(n, ast.Name)}
+                inside = {}
+                for n in ast.walk(comp):
+                    if isinstance(n, ast.Name) and n.id in cvars:
+                        inside[n.id] = inside.get(n.id, 0) + 1
+                if all(used.get(v, 0) == inside.get(v, 0) for v in cvars):
+                    body[i:i + 1] = new
+                    done.append(_u(st)[:70])
+                    i += len(new)
+                    continue
+            i += 1
+    return done
+
+
+# ------------------------------------------------------------------------------------------------ (j) records: NamedTuple locals -> scalars
+
+class _Record:
+    """A NamedTuple class that is not in the reviewed tree: field order and defaults, and those of its members that are a single
+    `return <pure expression over self's fields and the parameters>` (properties, methods) or `return cls(...)` (classmethods)."""
+    def __init__(self, ci):
+        self.ci = ci
+        self.fields = []
+        self.defaults = {}
+        for st in ci.node.body:
+            if isinstance(st, ast.AnnAssign) and isinstance(st.target, ast.Name):
+                self.fields.append(st.target.id)
+                if st.value is not None:
+                    self.defaults[st.target.id] = st.value
+        self.members = {}
+        for name, m in ci.methods.items():
+            body = [b for b in m.node.body if not (isinstance(b, ast.Expr) and isinstance(b.value, ast.Constant) and isinstance(b.value.value, str))]
+            if len(body) == 1 and isinstance(body[0], ast.Return) and body[0].value is not None:
+                self.members[name] = (m, body[0].value)
+
+    def bind_ctor(self, call: ast.Call):
+        """field -> argument expression for `N(...)`, or None."""
+        if any(isinstance(a, ast.Starred) for a in call.args) or any(k.arg is None for k in call.keywords) or len(call.args) > len(self.fields):
+            return None
+        out = dict(zip(self.fields, call.args))
+        for k in call.keywords:
+            if k.arg not in self.fields or k.arg in out:
+                return None
+            out[k.arg] = k.value
+        for f in self.fields:
+            if f not in out:
+                if f not in self.defaults:
+                    return None
+                out[f] = copy.deepcopy(self.defaults[f])
+        # evaluation order must be the field order for the rewrite into consecutive assignments to be exact: positional arguments
+        # first, then keywords in the order written -- require the keywords to be written in field order, or everything pure
+        kw_order = [k.arg for k in call.keywords]
+        in_order = kw_order == [f for f in self.fields if f in kw_order] and self.fields[:len(call.args)] == self.fields[:len(call.args)]
+        if not in_order and not all(_is_pure(v) for v in out.values()):
+            return None
+        return out
+
+
+def _records(repo, ref) -> dict:
+    out = {}
+    for q, ci in repo.classes.items():
+        if q in ref.get('classes', {}):
+            continue
+        if any((isinstance(b, str) and b.split('.')[-1] == 'NamedTuple') for b in ci.bases) or any(_u(b).split('.')[-1] == 'NamedTuple' for b in ci.node.bases):
+            r = _Record(ci)
+            if r.fields:
+                out[ci.name] = r
+    return out
+
+
+def _record_ctor(records, fi, e):
+    """(record, field -> expr) when `e` constructs a record: `N(...)`, or `N.classmethod(...)` whose body is `return cls(...)`."""
+    if not isinstance(e, ast.Call):
+        return None
+    f = e.func
+    if isinstance(f, ast.Name) and f.id in records and fi.module.name == records[f.id].ci.module.name:
+        r = records[f.id]
+        b = r.bind_ctor(e)
+        return (r, b) if b is not None else None
+    if isinstance(f, ast.Attribute) and isinstance(f.value, ast.Name) and f.value.id in records and fi.module.name == records[f.value.id].ci.module.name:
+        r = records[f.value.id]
+        mem = r.members.get(f.attr)
+        if mem is None or mem[0].kind != 'classmethod':
+            return None
+        m, ret = mem
+        if not (isinstance(ret, ast.Call) and isinstance(ret.func, ast.Name) and ret.func.id == m.node.args.args[0].arg):
+            return None
+        pm = _bind(m.node, e, True)
+        if pm is None:
+            return None
+        # each parameter is used at most once unless its argument is pure (no duplicated evaluation)
+        for p_, a_ in pm.items():
+            uses = sum(1 for n in ast.walk(ret) if isinstance(n, ast.Name) and n.id == p_)
+            if uses > 1 and not _is_pure(a_):
+                return None
+        inner = _Subst(pm).visit(copy.deepcopy(ret))
+        b = r.bind_ctor(inner)
+        return (r, b) if b is not None else None
+    return None
+
+
+def _scalarise_records(repo, fi, records, known_locals) -> list[str]:
+    fn = fi.node
+    done = []
+    if not records:
+        return done
+    for _ in range(4):
+        stored, mutated = _stores_and_mutations(fn)
+        hit = None
+        for body in _bodies(fn):
+            for idx, st in enumerate(body):
+                if isinstance(st, ast.Assign) and len(st.targets) == 1 and isinstance(st.targets[0], ast.Name):
+                    name = st.targets[0].id
+                elif isinstance(st, ast.AnnAssign) and isinstance(st.target, ast.Name) and st.value is not None:
+                    name = st.target.id
+                else:
+                    continue
+                if name in known_locals or stored.get(name, 0) != 1:
+                    continue
+                rc = _record_ctor(records, fi, st.value)
+                if rc is None:
+                    continue
+                rec, fields = rc
+                # every use of the variable is `v.field`, `v.property` or `v.method(...)` with a one-expression member
+                pm_ = {}
+                for n in ast.walk(fn):
+                    for c in ast.iter_child_nodes(n):
+                        pm_[id(c)] = n
+                ok = True
+                uses = []
+                for n in ast.walk(fn):
+                    if isinstance(n, ast.Name) and n.id == name and isinstance(n.ctx, ast.Load):
+                        par = pm_.get(id(n))
+                        if not (isinstance(par, ast.Attribute) and par.value is n and isinstance(par.ctx, ast.Load)):
+                            ok = False
+                            break
+                        if par.attr in rec.fields:
+                            uses.append(('field', par, None))
+                        elif par.attr in rec.members:
+                            m, ret = rec.members[par.attr]
+                            gp = pm_.get(id(par))
+                            if m.kind in ('property', 'cached_property'):
+                                uses.append(('prop', par, None))
+                            elif m.kind == 'method' and isinstance(gp, ast.Call) and gp.func is par:
+                                uses.append(('call', par, gp))
+                            else:
+                                ok = False
+                                break
+                        else:
+                            ok = False
+                            break
+                if not ok or not uses:
+                    continue
+                hit = (body, idx, st, name, rec, fields, uses)
+                break
+            if hit:
+                break
+        if not hit:
+            break
+        body, idx, st, name, rec, fields, uses = hit
+        scal = {f: f'{name}__{f}' for f in rec.fields}
+        repl = {}      # id(node to replace) -> new expr
+
+        def member_expr(m, ret, call):
+            selfname = m.node.args.args[0].arg
+            mapping = {}
+            if call is not None:
+                b = _bind(m.node, call, True)
+                if b is None:
+                    return None
+                for p_, a_ in b.items():
+                    n_uses = sum(1 for n in ast.walk(ret) if isinstance(n, ast.Name) and n.id == p_)
+                    if n_uses > 1 and not _is_pure(a_):
+                        return None
+                mapping.update(b)
+            e = copy.deepcopy(ret)
+            # self.<field> -> scalar; any other use of self (another member, self itself) is not handled
+            class S(ast.NodeTransformer):
+                bad = False
+
+                def visit_Attribute(self_, node):
+                    if isinstance(node.value, ast.Name) and node.value.id == selfname:
+                        if node.attr in scal:
+                            return ast.copy_location(ast.Name(id=scal[node.attr], ctx=ast.Load()), node)
+                        S.bad = True
+                        return node
+                    return self_.generic_visit(node)
+
+                def visit_Name(self_, node):
+                    if node.id == selfname:
+                        S.bad = True
+                    return node
+            e = S().visit(e)
+            if S.bad:
+                return None
+            return _Subst(mapping).visit(e) if mapping else e
+        fail = False
+        for kind, attr_node, call in uses:
+            if kind == 'field':
+                repl[id(attr_node)] = ast.Name(id=scal[attr_node.attr], ctx=ast.Load())
+            else:
+                m, ret = rec.members[attr_node.attr]
+                e = member_expr(m, ret, call)
+                if e is None:
+                    fail = True
+                    break
+                repl[id(call if kind == 'call' else attr_node)] = e
+        if fail:
+            known_locals = set(known_locals) | {name}     # leave this one alone, look for others
+            continue
+
+        class R(ast.NodeTransformer):
+            def visit(self_, node):
+                if id(node) in repl:
+                    new_ = repl[id(node)]
+                    _set_lines(new_, node)
+                    return new_
+                return self_.generic_visit(node)
+        assigns = []
+        for f in rec.fields:
+            a = ast.Assign(targets=[ast.Name(id=scal[f], ctx=ast.Store())], value=fields[f])
+            _set_lines(a, st)
+            a.value = fields[f]
+            assigns.append(a)
+        body[idx:idx + 1] = assigns
+        R().visit(fn)
+        done.append(f'{name} = {rec.ci.name}(...) -> {", ".join(scal.values())}')
+    return done
+
+
+class _RecordFieldOfCtor(ast.NodeTransformer):
+    """`N(a, b).field` -> the argument, when every argument is pure (nothing is lost by not evaluating the others)."""
+    def __init__(self, records, fi):
+        self.records, self.fi, self.done = records, fi, []
+
+    def visit_Attribute(self, node):
+        self.generic_visit(node)
+        rc = _record_ctor(self.records, self.fi, node.value) if isinstance(node.ctx, ast.Load) else None
+        if rc is not None and node.attr in rc[1] and all(_is_pure(v) for v in rc[1].values()):
+            new = rc[1][node.attr]
+            self.done.append(_u(node)[:70])
+            return new
+        return node
+
+
+# ------------------------------------------------------------------------------------------------ (k) new pre-compiled patterns
+
+_RE_FUNCS = {'findall': 1, 'finditer': 1, 'search': 1, 'match': 1, 'fullmatch': 1, 'split': 1, 'sub': 2, 'subn': 2}
+
+
+class _CompiledPatternUse(ast.NodeTransformer):
+    """`NAME.search(s)` with NAME a module constant `re.compile(P[, flags])` that the reviewed tree does not have
+    -> `re.search(P, s[, flags=...])`: the same search, spelled the way the tree spelled it before the constant was introduced."""
+    def __init__(self, module, known_names):
+        self.m, self.known, self.done = module, known_names, []
+
+    def visit_Call(self, node):
+        self.generic_visit(node)
+        f = node.func
+        if isinstance(f, ast.Attribute) and f.attr in _RE_FUNCS and isinstance(f.value, ast.Name) and f.value.id not in self.known \
+                and len(node.args) == _RE_FUNCS[f.attr] and not node.keywords:
+            vals = self.m.assigns.get(f.value.id) or []
+            if len(vals) == 1 and isinstance(vals[0], ast.Call) and _u(vals[0].func) == 're.compile' and vals[0].args and _is_pure(vals[0]):
+                c = vals[0]
+                flags = c.args[1] if len(c.args) > 1 else next((k.value for k in c.keywords if k.arg == 'flags'), None)
+                new = ast.Call(func=ast.Attribute(value=ast.Name(id='re', ctx=ast.Load()), attr=f.attr, ctx=ast.Load()),
+                               args=[copy.deepcopy(c.args[0])] + node.args,
+                               keywords=[ast.keyword(arg='flags', value=copy.deepcopy(flags))] if flags is not None else [])
+                _set_lines(new, node)
+                new.args[1:] = node.args
+                self.done.append(_u(node)[:70])
+                return new
+        return node
+
+
+# ------------------------------------------------------------------------------------------------ (l) enumerate -> counter
+
+def _enumerate_to_counter(fn: ast.FunctionDef, known_headers: set[str]) -> list[str]:
+    """A loop header the reviewed tree does not have, `for i, x in enumerate(X, start=k):` -> `i = k - 1` / `for x in X:` / `i += 1`
+    first in the body, when the body does not rebind `i` and nothing after the loop reads it (after an empty X the two differ)."""
+    done = []
+    for body in list(_bodies(fn)):
+        j = 0
+        while j < len(body):
+            st = body[j]
+            j += 1
+            if not (isinstance(st, ast.For) and not st.orelse and isinstance(st.iter, ast.Call) and isinstance(st.iter.func, ast.Name) and st.iter.func.id == 'enumerate'
+                    and isinstance(st.target, ast.Tuple) and len(st.target.elts) == 2 and isinstance(st.target.elts[0], ast.Name)):
+                continue
+            if f'for {_u(st.target)} in {_u(st.iter)}' in known_headers:
+                continue
+            call = st.iter
+            start = None
+            if len(call.args) == 2 and not call.keywords:
+                start = call.args[1]
+            elif len(call.args) == 1 and len(call.keywords) == 1 and call.keywords[0].arg == 'start':
+                start = call.keywords[0].value
+            elif len(call.args) == 1 and not call.keywords:
+                start = ast.Constant(value=0)
+            if not (isinstance(start, ast.Constant) and isinstance(start.value, int)):
+                continue
+            i = st.target.elts[0].id
+            inside = {id(n) for n in ast.walk(st)}
+            stores_in_body = [n for b in st.body for n in ast.walk(b) if isinstance(n, ast.Name) and n.id == i and isinstance(n.ctx, ast.Store)]
+            other = [n for n in ast.walk(fn) if isinstance(n, ast.Name) and n.id == i and id(n) not in inside]
+            if stores_in_body or other or any(isinstance(n, (ast.Continue,)) for b in st.body for n in ast.walk(b)) and False:
+                continue
+            init = ast.Assign(targets=[ast.Name(id=i, ctx=ast.Store())], value=ast.Constant(value=start.value - 1))
+            _set_lines(init, st)
+            inc = ast.AugAssign(target=ast.Name(id=i, ctx=ast.Store()), op=ast.Add(), value=ast.Constant(value=1))
+            _set_lines(inc, st)
+            done.append(f'for {_u(st.target)} in {_u(st.iter)}'[:70])
+            st.target = st.target.elts[1]
+            st.iter = call.args[0]
+            st.body.insert(0, inc)
+            body.insert(j - 1, init)
+            j += 1
+    return done
+
+
+# ------------------------------------------------------------------------------------------------ (m) default-then-override
+
+def _default_then_override(fn: ast.FunctionDef, known_assigns: set[str]) -> list[str]:
+    """`x = D` (an assignment the reviewed tree does not have, D free of effects) directly followed by `if c: x = V` with no else
+    -> `if c: x = V` / `else: x = D`, when neither c nor V reads x."""
+    done = []
+    for body in list(_bodies(fn)):
+        j = 0
+        while j + 1 < len(body):
+            a, b = body[j], body[j + 1]
+            j += 1
+            if not (isinstance(a, (ast.Assign, ast.AnnAssign)) and getattr(a, 'value', None) is not None and _u(a) not in known_assigns and _is_pure(a.value)):
+                continue
+            t = a.targets[0] if isinstance(a, ast.Assign) and len(a.targets) == 1 else getattr(a, 'target', None)
+            if not isinstance(t, ast.Name):
+                continue
+            if not (isinstance(b, ast.If) and not b.orelse and len(b.body) == 1 and isinstance(b.body[0], ast.Assign) and len(b.body[0].targets) == 1
+                    and isinstance(b.body[0].targets[0], ast.Name) and b.body[0].targets[0].id == t.id):
+                continue
+            reads = {n.id for x in (b.test, b.body[0].value) for n in ast.walk(x) if isinstance(n, ast.Name)}
+            if t.id in reads:
+                continue
+            els = ast.Assign(targets=[ast.Name(id=t.id, ctx=ast.Store())], value=a.value)
+            _set_lines(els, b)
+            els.value = a.value
+            b.orelse = [els]
+            del body[j - 1]
+            done.append(_u(a)[:60])
+    return done
+
+
+# ------------------------------------------------------------------------------------------------ (n) renamed locals, by definition
+
+def _rename_by_definition(fn: ast.FunctionDef, known_locals: set[str], known_assigns: list[str]) -> list[str]:
+    """A local the reviewed function does not have, defined by exactly the expression that defined a reviewed local which is
+    gone from the function, is that local under a new name."""
+    done = []
+    now = local_names(fn) | {a.arg for a in fn.args.args + fn.args.kwonlyargs + fn.args.posonlyargs}
+    gone = set(known_locals) - now
+    if not gone:
+        return done
+    ref_defs = {}
+    for t in known_assigns:
+        try:
+            st = ast.parse(t).body[0]
+        except SyntaxError:
+            continue
+        tgt = st.targets[0] if isinstance(st, ast.Assign) and len(st.targets) == 1 else getattr(st, 'target', None)
+        if isinstance(tgt, ast.Name) and tgt.id in gone and getattr(st, 'value', None) is not None and not isinstance(st.value, ast.Constant):
+            ref_defs.setdefault(_u(st.value), set()).add(tgt.id)
+    new_defs = {}
+    for n in ast.walk(fn):
+        if isinstance(n, (ast.Assign, ast.AnnAssign)) and getattr(n, 'value', None) is not None:
+            tgt = n.targets[0] if isinstance(n, ast.Assign) and len(n.targets) == 1 else getattr(n, 'target', None)
+            if isinstance(tgt, ast.Name) and tgt.id not in known_locals:
+                new_defs.setdefault(tgt.id, set()).add(_u(n.value))
+    ren = {}
+    for name, vals in new_defs.items():
+        cands = set()
+        for v in vals:
+            cands |= ref_defs.get(v, set())
+        if len(cands) == 1:
+            r = next(iter(cands))
+            if r not in ren.values():
+                ren[name] = r
+    for name, r in ren.items():
+        for n in ast.walk(fn):
+            if isinstance(n, ast.Name) and n.id == name:
+                n.id = r
+        done.append(f'{name} -> {r}')
+    return done
+
+
+# ------------------------------------------------------------------------------------------------ (o) find-first: next(generator, default)
+
+def _inline_single_use_generators(fn: ast.FunctionDef, known_locals: set[str]) -> list[str]:
+    """`g = (E for ..)` bound once, to a name the reviewed function does not have, and read once - by the very next statement -
+    is written where it is read (a generator does nothing until it is iterated)."""
+    done = []
+    stored, _ = _stores_and_mutations(fn)
+    for body in list(_bodies(fn)):
+        i = 0
+        while i + 1 < len(body):
+            st = body[i]
+            if isinstance(st, ast.Assign) and len(st.targets) == 1 and isinstance(st.targets[0], ast.Name) and isinstance(st.value, ast.GeneratorExp) \
+                    and st.targets[0].id not in known_locals and stored.get(st.targets[0].id, 0) == 1:
+                name = st.targets[0].id
+                loads = [n for n in ast.walk(fn) if isinstance(n, ast.Name) and n.id == name and isinstance(n.ctx, ast.Load)]
+                nxt = body[i + 1]
+                hdr = nxt.iter if isinstance(nxt, ast.For) else getattr(nxt, 'value', None)
+                if len(loads) == 1 and hdr is not None and any(n is loads[0] for n in ast.walk(hdr)) and _first_evaluated_atom(hdr) is loads[0] or \
+                        (len(loads) == 1 and isinstance(hdr, ast.Call) and isinstance(hdr.func, ast.Name) and hdr.func.id == 'next' and hdr.args
+                         and isinstance(hdr.args[0], ast.GeneratorExp) and _first_evaluated_atom(hdr.args[0].generators[0].iter) is loads[0]):
+                    _Subst({name: st.value}).visit(nxt)
+                    del body[i]
+                    done.append(name)
+                    continue
+            i += 1
+    return done
+
+
+def _expand_find_first(fn: ast.FunctionDef, known_assigns: set[str]) -> list[str]:
+    """Statements the reviewed tree does not have:
+         return next((E for x in XS if C), D)   ->  for x in XS: if C: return E      /  return D
+         v = next((E for x in XS if C), D)      ->  v = D / for x in XS: if C: v = E; break
+         for t in (E for x in XS if C): body    ->  for x in XS: if C: t = E; body
+       The generator's own variables must be used nowhere else in the function (they become function locals)."""
+    done = []
+    used = {}
+    for n in ast.walk(fn):
+        if isinstance(n, ast.Name):
+            used[n.id] = used.get(n.id, 0) + 1
+
+    def fresh(comp):
+        cvars = {n.id for g in comp.generators for n in ast.walk(g.target) if isinstance(n, ast.Name)}
+        inside = {}
+        for n in ast.walk(comp):
+            if isinstance(n, ast.Name) and n.id in cvars:
+                inside[n.id] = inside.get(n.id, 0) + 1
+        return all(used.get(v, 0) == inside.get(v, 0) for v in cvars)
+
+    def is_next(e):
+        return isinstance(e, ast.Call) and isinstance(e.func, ast.Name) and e.func.id == 'next' and len(e.args) == 2 and not e.keywords \
+            and isinstance(e.args[0], ast.GeneratorExp) and _is_pure(e.args[1]) and fresh(e.args[0])
+    for body in list(_bodies(fn)):
+        i = 0
+        while i < len(body):
+            st = body[i]
+            new = None
+            if isinstance(st, ast.Return) and st.value is not None and is_next(st.value):
+                gen, dflt = st.value.args
+                loop = _comp_loop(gen, lambda e: ast.Return(value=e), st)
+                if loop is not None:
+                    last = ast.Return(value=dflt)
+                    _set_lines(last, st)
+                    last.value = dflt
+                    new = [loop, last]
+            elif isinstance(st, (ast.Assign, ast.AnnAssign)) and getattr(st, 'value', None) is not None and is_next(st.value) and _u(st) not in known_assigns \
+                    and len(st.value.args[0].generators) == 1:
+                tgt = st.targets[0] if isinstance(st, ast.Assign) and len(st.targets) == 1 else getattr(st, 'target', None)
+                gen, dflt = st.value.args
+                if isinstance(tgt, ast.Name) and tgt.id not in {n.id for n in ast.walk(gen) if isinstance(n, ast.Name)}:
+                    init = ast.Assign(targets=[ast.Name(id=tgt.id, ctx=ast.Store())], value=dflt)
+                    _set_lines(init, st)
+                    init.value = dflt
+                    g0 = gen.generators[0]
+                    hit = [ast.Assign(targets=[ast.Name(id=tgt.id, ctx=ast.Store())], value=gen.elt), ast.Break()]
+                    inner = hit
+                    for c in reversed(g0.ifs):
+                        inner = [ast.If(test=c, body=inner, orelse=[])]
+                    loop = ast.For(target=g0.target, iter=g0.iter, body=inner, orelse=[])
+                    for n in ast.walk(loop):
+                        if isinstance(n, ast.stmt):
+                            ast.copy_location(n, st)
+                    new = [init, loop]
+            elif isinstance(st, ast.For) and isinstance(st.iter, ast.GeneratorExp) and len(st.iter.generators) == 1 and fresh(st.iter) \
+                    and isinstance(st.target, ast.Name) and not st.orelse:
+                gen = st.iter
+                g0 = gen.generators[0]
+                bind = ast.Assign(targets=[ast.Name(id=st.target.id, ctx=ast.Store())], value=gen.elt)
+                _set_lines(bind, st)
+                bind.value = gen.elt
+                inner = [bind] + st.body
+                for c in reversed(g0.ifs):
+                    inner = [ast.copy_location(ast.If(test=c, body=inner, orelse=[]), st)]
+                loop = ast.For(target=g0.target, iter=g0.iter, body=inner, orelse=[])
+                ast.copy_location(loop, st)
+                new = [loop]
+            if new is not None:
+                body[i:i + 1] = new
+                done.append(_u(st).split('\n')[0][:70])
+                i += len(new)
+                continue
+            i += 1
+    return done
+
+
+# ------------------------------------------------------------------------------------------------ (p) result variable -> early returns
+
+def _noneness(repo, fi, e) -> bool | None:
+    """True: `e` is None; False: `e` is certainly an object (a freshly constructed instance of a repository class, a literal);
+    None: unknown."""
+    if isinstance(e, ast.Constant):
+        return e.value is None
+    if isinstance(e, (ast.List, ast.Dict, ast.Tuple, ast.Set, ast.JoinedStr, ast.ListComp)):
+        return False
+    if isinstance(e, ast.Call) and isinstance(e.func, ast.Name):
+        m = fi.module
+        name = e.func.id
+        if name in m.classes:
+            return False
+        imp = m.imports.get(name)
+        if imp is not None and imp[0] == 'symbol' and f'{imp[1]}.{imp[2]}' in repo.classes:
+            return False
+    return None
+
+
+def _sink_continuations(repo, fi) -> list[str]:
+    """After helper inlining a function may thread a result variable:  `if a: v = X else: v = None` / `if v is None: ...` /
+    `if v is not None: return v`.  The statements after an if/else whose every leaf ends by binding v to a value of known
+    None-ness are moved into the leaves (always exact: both branches then run what followed), and there the tests of v are decided.
+    `v = X` / `return v` becomes `return X`."""
+    fn = fi.node
+    done = []
+
+    def leaves(stmts):
+        """lists of statements that end a path through `stmts` (an if/else tree at the end), or None when it is not such a tree"""
+        if not stmts:
+            return None
+        last = stmts[-1]
+        if isinstance(last, ast.If) and last.orelse:
+            a, b = leaves(last.body), leaves(last.orelse)
+            return a + b if a is not None and b is not None else None
+        return [stmts]
+
+    def leaf_var(lf):
+        last = lf[-1]
+        if isinstance(last, ast.Assign) and len(last.targets) == 1 and isinstance(last.targets[0], ast.Name):
+            return last.targets[0].id, _noneness(repo, fi, last.value)
+        return None, None
+
+    def test_of(st, v):
+        """(polarity when v is None) for `if v is None` / `if v is not None`"""
+        if isinstance(st, ast.If) and isinstance(st.test, ast.Compare) and len(st.test.ops) == 1 and isinstance(st.test.left, ast.Name) and st.test.left.id == v \
+                and isinstance(st.test.comparators[0], ast.Constant) and st.test.comparators[0].value is None:
+            if isinstance(st.test.ops[0], ast.Is):
+                return True
+            if isinstance(st.test.ops[0], ast.IsNot):
+                return False
+        return None
+
+    def simplify(stmts, v, isnone):
+        """decide leading tests of v in `stmts` given that v is (not) None; stop at the first statement that may rebind v"""
+        out = []
+        k = 0
+        while k < len(stmts):
+            st = stmts[k]
+            pol = test_of(st, v)
+            if pol is not None:
+                taken = st.body if pol == isnone else st.orelse
+                rest = taken + stmts[k + 1:]
+                # the taken branch may rebind v: re-analyse from here
+                return out + process(rest)
+            if any(isinstance(n, ast.Name) and n.id == v and isinstance(n.ctx, ast.Store) for n in ast.walk(st)):
+                return out + process(stmts[k:])
+            out.append(st)
+            k += 1
+        return out
+
+    def process(stmts):
+        for i, st in enumerate(stmts):
+            if isinstance(st, ast.If) and st.orelse and i + 1 < len(stmts):
+                lv = leaves([st])
+                if lv is None or len(lv) > 12:
+                    continue
+                infos = [leaf_var(lf) for lf in lv]
+                v = infos[0][0]
+                if v is None or any(x[0] != v or x[1] is None for x in infos) or test_of(stmts[i + 1], v) is None:
+                    continue
+                K = stmts[i + 1:]
+                if sum(1 for s_ in K for _ in ast.walk(s_)) * len(lv) > 6000:
+                    continue
+                for lf, (_, isnone) in zip(lv, infos):
+                    lf.extend(simplify(copy.deepcopy(K), v, isnone))
+                done.append(f'statements after the if/else at line {getattr(st, "lineno", "?")} moved into its {len(lv)} leaves (tests of {v} decided)')
+                new = stmts[:i + 1]
+                # the leaves were extended in place; process nested lists again for `v = X; return v`
+                return new
+            if isinstance(st, ast.Assign) and len(st.targets) == 1 and isinstance(st.targets[0], ast.Name) and i + 1 < len(stmts):
+                v = st.targets[0].id
+                isnone = _noneness(repo, fi, st.value)
+                if isnone is not None and test_of(stmts[i + 1], v) is not None:
+                    done.append(f'test of {v} decided after its definition at line {getattr(st, "lineno", "?")}')
+                    return stmts[:i + 1] + simplify(stmts[i + 1:], v, isnone)
+        return stmts
+
+    def peephole(stmts):
+        i = 0
+        while i + 1 < len(stmts):
+            a, b = stmts[i], stmts[i + 1]
+            if isinstance(a, ast.Assign) and len(a.targets) == 1 and isinstance(a.targets[0], ast.Name) and isinstance(b, ast.Return) \
+                    and isinstance(b.value, ast.Name) and b.value.id == a.targets[0].id:
+                r = ast.Return(value=a.value)
+                ast.copy_location(r, a)
+                stmts[i:i + 2] = [r]
+                del stmts[i + 1:]
+                continue
+            if isinstance(a, ast.Return):
+                del stmts[i + 1:]
+                break
+            i += 1
+    for _ in range(8):
+        before = len(done)
+        for body in list(_bodies(fn)):
+            new = process(body)
+            if new is not body:
+                body[:] = new
+            if len(done) != before:
+                break
+        if len(done) == before:
+            break
+    if done:
+        for body in list(_bodies(fn)):
+            peephole(body)
+        # stores the moved tests have made dead: a name no statement reads any more
+        loaded = {n.id for n in ast.walk(fn) if isinstance(n, ast.Name) and isinstance(n.ctx, ast.Load)}
+        for body in list(_bodies(fn)):
+            keep = [st for st in body if not (isinstance(st, ast.Assign) and len(st.targets) == 1 and isinstance(st.targets[0], ast.Name)
+                                              and st.targets[0].id not in loaded and _is_pure(st.value))]
+            if len(keep) != len(body):
+                body[:] = keep or [ast.copy_location(ast.Pass(), body[0])]
+    return done
+
+
+# ------------------------------------------------------------------------------------------------ (q) map / list(generator) / fused comprehensions
+
+class _MapSpelling(ast.NodeTransformer):
+    """`map(f, xs)` -> `(f(m) for m in xs)` (both lazy; `str.strip` style unbound methods become method calls on the element);
+    `list(<generator>)` -> list comprehension;  `[*<comprehension>, a]` -> `[...] + [a]`;  a comprehension over a generator whose
+    element is free of effects -> one comprehension."""
+    def __init__(self, taken: set[str]):
+        self.done = []
+        self.taken = taken
+        self.k = 0
+
+    def _var(self):
+        while True:
+            self.k += 1
+            v = f'm{self.k}' if self.k > 1 else 'm'
+            if v not in self.taken:
+                self.taken.add(v)
+                return v
+
+    def visit_Call(self, node):
+        self.generic_visit(node)
+        f = node.func
+        if isinstance(f, ast.Name) and f.id == 'map' and len(node.args) == 2 and not node.keywords and isinstance(node.args[0], (ast.Name, ast.Attribute)):
+            fn_, xs = node.args
+            v = self._var()
+            m = ast.Name(id=v, ctx=ast.Load())
+            if isinstance(fn_, ast.Attribute) and isinstance(fn_.value, ast.Name) and fn_.value.id in ('str', 'bytes'):
+                elt = ast.Call(func=ast.Attribute(value=m, attr=fn_.attr, ctx=ast.Load()), args=[], keywords=[])
+            else:
+                elt = ast.Call(func=fn_, args=[m], keywords=[])
+            new = ast.GeneratorExp(elt=elt, generators=[ast.comprehension(target=ast.Name(id=v, ctx=ast.Store()), iter=xs, ifs=[], is_async=0)])
+            _set_lines(new, node)
+            new.generators[0].iter = xs
+            self.done.append(_u(node)[:60])
+            return new
+        if isinstance(f, ast.Name) and f.id == 'list' and len(node.args) == 1 and not node.keywords and isinstance(node.args[0], ast.GeneratorExp):
+            g = node.args[0]
+            new = ast.ListComp(elt=g.elt, generators=g.generators)
+            ast.copy_location(new, node)
+            self.done.append(_u(node)[:60])
+            return new
+        return node
+
+    def visit_List(self, node):
+        self.generic_visit(node)
+        if isinstance(node.ctx, ast.Load) and node.elts and isinstance(node.elts[0], ast.Starred) and isinstance(node.elts[0].value, (ast.GeneratorExp, ast.ListComp)) \
+                and not any(isinstance(e, ast.Starred) for e in node.elts[1:]):
+            g = node.elts[0].value
+            left = ast.ListComp(elt=g.elt, generators=g.generators)
+            ast.copy_location(left, node)
+            if len(node.elts) == 1:
+                return left
+            right = ast.List(elts=node.elts[1:], ctx=ast.Load())
+            ast.copy_location(right, node)
+            new = ast.BinOp(left=left, op=ast.Add(), right=right)
+            ast.copy_location(new, node)
+            self.done.append(_u(node)[:60])
+            return new
+        return node
+
+    def _fuse(self, node):
+        if len(node.generators) == 1 and isinstance(node.generators[0].iter, ast.GeneratorExp) and len(node.generators[0].iter.generators) == 1 \
+                and isinstance(node.generators[0].target, ast.Name) and _is_pure(node.generators[0].iter.elt) and not node.generators[0].is_async:
+            inner = node.generators[0].iter
+            t = node.generators[0].target.id
+            sub = {t: inner.elt}
+            node.elt = _Subst(sub).visit(node.elt)
+            ifs = [_Subst(sub).visit(c) for c in node.generators[0].ifs]
+            node.generators = [ast.comprehension(target=inner.generators[0].target, iter=inner.generators[0].iter, ifs=list(inner.generators[0].ifs) + ifs, is_async=0)]
+            self.done.append('comprehension over a generator fused')
+        return node
+
+    def visit_ListComp(self, node):
+        self.generic_visit(node)
+        return self._fuse(node)
+
+    def visit_GeneratorExp(self, node):
+        self.generic_visit(node)
+        return self._fuse(node)
+
+
 # ------------------------------------------------------------------------------------------------ (g) parallel assignments
 
 def _split_parallel(fn: ast.FunctionDef, known_stmts: set[str]) -> list[str]:
     """`a, b = f(a), g(b)` -> `a = f(a)` / `b = g(b)` when no right-hand side reads a target assigned before it."""
     done = []
+    closure_reads = {n.id for c in ast.walk(fn) if isinstance(c, (ast.Lambda, ast.FunctionDef, ast.GeneratorExp)) and c is not fn
+                     for n in ast.walk(c) if isinstance(n, ast.Name)}
     for body in list(_bodies(fn)):
         i = 0
         while i < len(body):
@@ -812,18 +1839,20 @@ def _split_parallel(fn: ast.FunctionDef, known_stmts: set[str]) -> list[str]:
                 ok = True
                 for k, v in enumerate(st.value.elts):
                     reads = {n.id for n in ast.walk(v) if isinstance(n, ast.Name)}
-                    if reads & set(names[:k]) or not _is_pure(v):
-                        ok = False
+                    if reads & set(names[:k]) or (not _is_pure(v) and closure_reads & set(names)):
+                        ok = False      # (targets are plain locals: only code that reads them can tell the two orders apart)
                 if ok and len(set(names)) == len(names):
                     new = []
                     for t, v in zip(st.targets[0].elts, st.value.elts):
+                        if isinstance(v, ast.Name) and v.id == t.id:
+                            continue          # `x = x` does nothing
                         a = ast.Assign(targets=[t], value=v)
                         _set_lines(a, st)
                         a.targets, a.value = [t], v
                         new.append(a)
-                    body[i:i + 1] = new
+                    body[i:i + 1] = new or [ast.copy_location(ast.Pass(), st)]
                     done.append(_u(st)[:70])
-                    i += len(new)
+                    i += max(len(new), 1)
                     continue
             i += 1
     return done
@@ -885,8 +1914,10 @@ def _recover_renames(repo, ref, log: dict) -> None:
         if rc is None:
             continue
         now = class_private_attrs(ci)
-        own_methods = set(ci.methods)
-        gone = [a for a in rc['attrs'] if a not in now and a not in own_methods]
+        own_methods = {m_ for c_ in ci.mro() for m_ in c_.methods} | {m_ for c_ in ci.all_subclasses() for m_ in c_.methods}
+        family_attrs = {a_ for c_ in ci.mro() + ci.all_subclasses() if c_ is not ci for a_ in class_private_attrs(c_)}
+        # (an attribute that merely moved to another class of the family is not gone, and one read from there is not new)
+        gone = [a for a in rc['attrs'] if a not in now and a not in own_methods and a not in family_attrs]
         added = [a for a in now if a not in rc['attrs'] and a not in own_methods and a not in rc['methods']]
         for a in list(added):
             cands = [g for g in gone if rc['attrs'][g] == now[a]]
@@ -1011,6 +2042,21 @@ def normalise(repo) -> dict:
         _inline_helpers(repo, set(ref_funcs), log)
     except Exception as e:   # normalisation must never decide anything: on trouble leave the tree as written
         log.setdefault('#errors', []).append(f'helper inlining: {type(e).__name__}: {e}')
+    try:
+        records = _records(repo, ref)
+    except Exception as e:
+        records = {}
+        log.setdefault('#errors', []).append(f'records: {type(e).__name__}: {e}')
+    inlined_into = {q for q, v in log.items() if any(x.startswith('inlined helper call') for x in v)}
+    for q, fi in repo.functions.items():
+        if q in inlined_into and q in ref_funcs:
+            try:
+                d = _sink_continuations(repo, fi)
+                if d:
+                    log.setdefault(q, []).extend(f'result variable -> early returns: {x}' for x in d)
+                    ast.fix_missing_locations(fi.node)
+            except Exception as e:
+                log.setdefault('#errors', []).append(f'{q}: continuation sinking: {type(e).__name__}: {e}')
     for q, fi in repo.functions.items():
         key = q if q in ref_funcs else None
         known_locals = set(ref_funcs[key]['locals']) if key else None
@@ -1018,10 +2064,15 @@ def normalise(repo) -> dict:
         if known_locals is None:
             continue          # a function the rules have never seen: nothing refers to its locals, leave it as written
         try:
-            sp = _Spelling()
+            sp = _Spelling(fi.module.imports)
             sp.visit(fi.node)
             if sp.done:
                 log.setdefault(q, []).extend(f'tuple prefix test -> or: {x}' for x in sp.done)
+            if 're' in fi.module.imports and fi.module.name in ref.get('modules', {}):
+                cp = _CompiledPatternUse(fi.module, set(ref['modules'][fi.module.name]) | local_names(fi.node) | {a.arg for a in fi.node.args.args})
+                cp.visit(fi.node)
+                if cp.done:
+                    log.setdefault(q, []).extend(f'new pre-compiled pattern used in place: {x}' for x in cp.done)
             sp2 = _Spelling2()
             sp2.visit(fi.node)
             if sp2.done:
@@ -1032,12 +2083,52 @@ def normalise(repo) -> dict:
             d = _expand_quantifiers(fi.node)
             if d:
                 log.setdefault(q, []).extend(f'quantifier / writelines expanded into a loop: {x}' for x in d)
+            if any(isinstance(n, ast.Name) and n.id == 'map' for n in ast.walk(fi.node)) or \
+                    any(isinstance(n, ast.Starred) and isinstance(n.value, (ast.GeneratorExp, ast.ListComp)) for n in ast.walk(fi.node)):
+                ms = _MapSpelling({n.id for n in ast.walk(fi.node) if isinstance(n, ast.Name)} | {a.arg for a in fi.node.args.args})
+                ms.visit(fi.node)
+                if ms.done:
+                    log.setdefault(q, []).extend(f'map / starred comprehension respelled: {x}' for x in ms.done)
+            d = _inline_single_use_generators(fi.node, known_locals)
+            if d:
+                log.setdefault(q, []).extend(f'single-use generator used in place: {x}' for x in d)
+                ms = _MapSpelling(set())
+                ms.visit(fi.node)
+            d = _expand_comprehensions(fi.node, set(ref_funcs[key].get('comp', [])), set(ref_funcs[key].get('elementwise', [])))
+            if d:
+                log.setdefault(q, []).extend(f'comprehension -> loop: {x}' for x in d)
+            for _pass in range(3):
+                d = _expand_find_first(fi.node, set(ref_funcs[key].get('assigns', [])))
+                if not d:
+                    break
+                log.setdefault(q, []).extend(f'find-first -> loop: {x}' for x in d)
+            d = _default_then_override(fi.node, set(ref_funcs[key].get('assigns', [])))
+            if d:
+                log.setdefault(q, []).extend(f'default-then-override -> if/else: {x}' for x in d)
+            d = _enumerate_to_counter(fi.node, set(ref_funcs[key].get('loops', [])))
+            if d:
+                log.setdefault(q, []).extend(f'enumerate -> counter: {x}' for x in d)
             d = _split_parallel(fi.node, set(ref_funcs[key].get('parallel', [])))
             if d:
                 log.setdefault(q, []).extend(f'parallel assignment split: {x}' for x in d)
             d = _expand_ifexp(fi.node, known_ifexp)
             if d:
                 log.setdefault(q, []).extend(f'conditional expression -> if/else: {x}' for x in d)
+            if records:
+                rf = _RecordFieldOfCtor(records, fi)
+                rf.visit(fi.node)
+                if rf.done:
+                    log.setdefault(q, []).extend(f'field of a record built in place: {x}' for x in rf.done)
+                d = _scalarise_records(repo, fi, records, known_locals)
+                if d:
+                    log.setdefault(q, []).extend(f'record local -> scalars: {x}' for x in d)
+                if d:
+                    d2 = _expand_ifexp(fi.node, known_ifexp)
+                    if d2:
+                        log.setdefault(q, []).extend(f'conditional expression -> if/else: {x}' for x in d2)
+            d = _rename_by_definition(fi.node, known_locals, ref_funcs[key].get('assigns', []))
+            if d:
+                log.setdefault(q, []).extend(f'local recognised by its definition: {x}' for x in d)
             d = _inline_locals(fi, known_locals)
             if d:
                 log.setdefault(q, []).extend(f'inlined new local: {x}' for x in d)
